@@ -3,7 +3,7 @@
 # usage (from vp run): bash tools/thorough_all.sh [seed] [jobs]
 SEED=${1:-1}; JOBS=${2:-8}
 if [ -n "$VP_RUN_REPO" ]; then
-  grep -rl "/repo" harness/Cargo.toml js tools/*.js 2>/dev/null | xargs sed -i "s#/repo/#$VP_RUN_REPO/#g; s#'/repo'#'$VP_RUN_REPO'#g"
+  grep -rl "/repo" harness/Cargo.toml js tools/*.js miri_util/src/main.rs 2>/dev/null | xargs sed -i "s#/repo/#$VP_RUN_REPO/#g; s#'/repo'#'$VP_RUN_REPO'#g"
 fi
 bash ./setup.sh || exit 2
 for id in C01 C02 C03 C04 C05 C06 C07 C08 C09 C10 C11 C12 C14 C15 C16 C13; do
